@@ -309,7 +309,7 @@ def check(rep, tier, seed):
     jobs = []
     for name, (text, exp) in progs:
         jobs.append((name, exp, None))                       # default quantum: the reference behaviour
-        for i in range(nseeds if name != "callbacks" else 7):
+        for i in range(nseeds):
             q = quanta[i % len(quanta)]
             jobs.append((name, exp, "seed:%d:%d" % (rng.randrange(1, 10 ** 9), q)))
     # bounded enumeration of pre-emption points for the 2-thread programs: explicit first slices, then a fixed quantum
@@ -325,8 +325,12 @@ def check(rep, tier, seed):
         env = {"CHIBI_VERIF_HEAPCHECK": 1, "CHIBI_VERIF_DEADLOCK": 1}
         if sched:
             env["CHIBI_VERIF_SCHED"] = sched
-        r = R.run(b, [paths[name]], env_extra=env, timeout=20 if name == "callbacks" else 60)
-        if r.timed_out and name != "callbacks":             # re-run once before calling it a hang (inconclusive)
+        if name == "callbacks" and sched:
+            # CPU-only program: "never finishes" is decided in logical steps (quanta handed out), not by the wall clock;
+            # the longest legitimate run (slices of 1 instruction) needs about 2e5
+            env["CHIBI_VERIF_MAXSLICES"] = 30000000
+        r = R.run(b, [paths[name]], env_extra=env, timeout=60)
+        if r.timed_out:                                      # re-run once before calling it a hang (inconclusive)
             r = R.run(b, [paths[name]], env_extra=env, timeout=120)
         return j, r
 
@@ -345,6 +349,9 @@ def check(rep, tier, seed):
         sig = {"program": name, "family": fam}
         if r.timed_out:
             rep.inconc("timeout" if fam == "plain" else "timeout-in-callback-family", "%s %s" % (name, sched))
+            continue
+        if r.rc == 87 or r.log_lines("STEP-BUDGET"):
+            rep.violation(dict(sig, check="no-progress"), dict(wit, budget=r.log_lines("STEP-BUDGET")[:1]))
             continue
         if r.rc == 86 or r.log_lines("DEADLOCK"):
             rep.violation(dict(sig, check="deadlock"), wit)
